@@ -505,6 +505,10 @@ def generic_rules(ctx) -> None:
         sf = generic2.signed_formats(ctx, f"{ctx.chk.prop}.signed-format", files)
         fb = generic2.instance_from_bytes(ctx, f"{ctx.chk.prop}.from-bytes-class", files)
         ctx.chk.extra["from_bytes_sites_scanned"] = fb
+        dk = generic2.db_key_lookups(ctx, f"{ctx.chk.prop}.db-key-exists", files)
+        ctx.chk.extra["database_lookups_scanned"] = dk
+        if dk:
+            ctx.chk.ok(f"{ctx.chk.prop}.db-key-exists", "anchor modules", f"{dk} literal database lookups scanned; every (feature, key) exists in some device database or in the defaults")
         if fb:
             ctx.chk.ok(f"{ctx.chk.prop}.from-bytes-class", "anchor modules", f"{fb} from_bytes calls scanned; every receiver is a class (no value.from_bytes)")
         ctx.chk.extra["struct_formats_scanned"] = sf
